@@ -149,7 +149,8 @@ def clouds(draw, r_km, m_s=None, n_sets=2, min_points=1, max_points=40,
     allow_far   some members are placed around the antipode of their centre
     sub_second  times get a millisecond part
     tile        None or {"copies": (lo, hi)}: every set is repeated
-                lo..hi times (drawn per set) with a shared stride / rotation
+                lo..hi times (drawn per set) with a shared stride / rotation;
+                "sparse": True keeps the stride >= m_s / 4
     """
     n_clusters = draw(st.one_of(st.integers(1, min(2, max_clusters)),
                                 st.integers(1, max_clusters)))
@@ -182,8 +183,14 @@ def clouds(draw, r_km, m_s=None, n_sets=2, min_points=1, max_points=40,
         if m_s is None:
             stride = 0
         else:
-            stride = draw(st.sampled_from(
-                [0, 1, max(m_s // 2, 1), m_s, m_s + 1, 2 * m_s, 7 * m_s]))
+            strides = [max(m_s // 2, 1), m_s, m_s + 1, 2 * m_s, 7 * m_s]
+            if tile.get("sparse"):
+                # many copies: keep the number of copies within the time
+                # threshold of each other (and so the result size) bounded
+                strides.append(max(m_s // 4, 1))
+            else:
+                strides += [0, 1]
+            stride = draw(st.sampled_from(strides))
         ang = math.degrees(_angle_for(r_km, "arc"))
         dlon = draw(st.sampled_from(
             [0.0, 0.0, 0.25 * ang, ang, 2.5 * ang, 10.0]))
